@@ -35,11 +35,12 @@ IR_FLAGS = ['-O1', '-fno-vectorize', '-fno-slp-vectorize', '-fno-unroll-loops', 
 class Unit:
     """One wrapper translation unit (wrappers/<name>.cpp) plus the real .cpp files it links against."""
 
-    def __init__(s, wd, name, extra=(), std='c++17', py=False, defines=(), noinline=False, lang='c++', src=None):
+    def __init__(s, wd, name, extra=(), std='c++17', py=False, defines=(), noinline=False, lang='c++', src=None, keep_calls=()):
         s.wd = wd; s.name = name; s.extra = list(extra); s.std = std; s.py = py
         s.defines = list(defines); s.noinline = noinline; s.lang = lang
         s.src = src or os.path.join(VERIF, 'wrappers', name + ('.cpp' if lang == 'c++' else '.c'))
         s.ll = None; s.module = None; s._real = {}; s.build_s = 0.0
+        s.keep_calls = [re.compile(r) for r in keep_calls]   # functions kept out of line (contract substitution in engine C)
 
     def _cc(s):
         return CLANGXX if s.lang == 'c++' else CLANG
@@ -58,7 +59,22 @@ class Unit:
             islang = 'c++' if src.endswith('.cpp') else 'c'
             cc = CLANGXX if islang == 'c++' else CLANG
             std = ['-std=' + s.std] if islang == 'c++' else []
-            must([cc] + std + flags + ['-D' + d for d in s.defines] + includes(s.wd, s.py) + [src, '-o', out], timeout=600)
+            if s.keep_calls:
+                # unoptimised IR with -O1 attributes, mark the selected definitions noinline, then run the -O1 pipeline
+                raw = out + '.raw.ll'
+                must([cc] + std + flags + ['-Xclang', '-disable-llvm-passes'] + ['-D' + d for d in s.defines] + includes(s.wd, s.py) + [src, '-o', raw], timeout=600)
+                txt = open(raw).read().split('\n'); kept = 0
+                for i, ln in enumerate(txt):
+                    if ln.startswith('define '):
+                        mm = re.search(r'@("?)([\w.$]+)\1\(', ln)
+                        if mm and any(r.search(mm.group(2)) for r in s.keep_calls):
+                            j = ln.rfind(' #')
+                            txt[i] = (ln[:j] + ' noinline' + ln[j:]) if j > 0 else ln.replace(' {', ' noinline {'); kept += 1
+                write(raw, '\n'.join(txt))
+                must(['opt-14', '-S', '-passes=default<O1>', '-inline-threshold=100000', raw, '-o', out], timeout=600)
+                s.kept = kept
+            else:
+                must([cc] + std + flags + ['-D' + d for d in s.defines] + includes(s.wd, s.py) + [src, '-o', out], timeout=600)
             parts.append(out)
         s.ll = os.path.join(s.wd, s.name + '.ll')
         if len(parts) == 1:
